@@ -81,6 +81,58 @@ def log_event(*ev):
     EVENT_LOG.append(ev)
 
 
+class KeysView(list):
+    """dict.keys(): a list (ordered, indexable for the interpreter) that compares and combines like a set, as the real view does."""
+    __hash__ = None
+
+    def _set(self):
+        return set(self)
+
+    def __eq__(self, other):
+        if isinstance(other, (set, frozenset, KeysView)):
+            return self._set() == set(other)
+        return False
+
+    def __ne__(self, other):
+        return not self.__eq__(other)
+
+    def __le__(self, other):
+        return self._set() <= set(other)
+
+    def __lt__(self, other):
+        return self._set() < set(other)
+
+    def __ge__(self, other):
+        return self._set() >= set(other)
+
+    def __gt__(self, other):
+        return self._set() > set(other)
+
+    def __and__(self, other):
+        return self._set() & set(other)
+
+    __rand__ = __and__
+
+    def __or__(self, other):
+        return self._set() | set(other)
+
+    __ror__ = __or__
+
+    def __sub__(self, other):
+        return self._set() - set(other)
+
+    def __rsub__(self, other):
+        return set(other) - self._set()
+
+    def __xor__(self, other):
+        return self._set() ^ set(other)
+
+    __rxor__ = __xor__
+
+    def isdisjoint(self, other):
+        return self._set().isdisjoint(other)
+
+
 class AGen:
     """A generator object that has not run yet (created by calling a generator function)."""
     def __init__(self, info, env, module):
@@ -643,9 +695,26 @@ class AbsInt:
                 k = k.const
             if isinstance(k, AList) and not k.has_var() and all(_is_concrete(x) for x in k.items):
                 k = tuple(k.items)
-            if not _is_concrete(k) and not isinstance(k, Poly):
+            if isinstance(k, AList) and k.kind == 'tuple' and k.items and _is_concrete(k.items[0]) and not isinstance(k.items[0], SeqVar):
+                k = ('prefix', k.items[0])        # decided below if the first components are pairwise different
+            elif not _is_concrete(k) and not isinstance(k, Poly):
                 raise Unsupported(f'sort key {k!r} is not a constant (line {getattr(node, "lineno", "?")})')
             keys.append(k)
+        if any(isinstance(k, tuple) and len(k) == 2 and k[0] == 'prefix' for k in keys):
+            firsts = []
+            for k in keys:
+                if isinstance(k, tuple) and len(k) == 2 and k[0] == 'prefix':
+                    firsts.append(k[1])
+                elif isinstance(k, tuple) and k:
+                    firsts.append(k[0])
+                else:
+                    raise Unsupported('sort keys of mixed shape')
+            try:
+                if len(set(firsts)) != len(firsts):
+                    raise Unsupported('order of tuples with equal first component and symbolic rest is undecided')
+            except TypeError:
+                raise Unsupported('unhashable first component of a sort key')
+            keys = firsts
         if any(isinstance(k, Poly) for k in keys):
             import functools
 
@@ -720,13 +789,22 @@ class AbsInt:
                 return base.attrs[e.attr]
             if e.attr == '__class__' and base.cls is not None:
                 return ClassRef(base.cls)
+            if e.attr == '__dict__':
+                view = ADict()
+                view.d = base.attrs
+                view.owner = base
+                return view
             if base.cls is not None:
                 v = self.p.class_attr(base.cls, e.attr)
                 if v is not None:
                     try:
-                        return self.f.eval(v, {}, base.cls.module)
+                        cv = self.f.eval(v, {}, base.cls.module)
                     except Unfoldable:
                         return Opaque(f'class attr {e.attr}')
+                    if isinstance(cv, FuncRef) and not _is_staticmethod(cv.info.node):
+                        # a plain function stored in the class body (`__iter__ = Base.iter_pending`) binds like a method
+                        return ('bound', base, cv.info)
+                    return cv
                 o, fn = self.p.lookup_method(base.cls, e.attr)
                 if fn is not None:
                     if any(isinstance(d, ast.Name) and d.id == 'property' for d in fn.node.decorator_list):
@@ -893,6 +971,11 @@ class AbsInt:
                 and (isinstance(a, str) or type(a).__name__ == 'SStr') and (isinstance(b, str) or type(b).__name__ == 'SStr'):
             from . import strdom
             return strdom.norm(strdom.SStr([a, b]))
+        if isinstance(op, ast.Mod) and isinstance(a, str) and getattr(self, 'str_domain', False) and not _is_concrete(b):
+            from . import strdom
+            r = strdom.percent(self, a, b)
+            if r is not None:
+                return r
         if isinstance(a, Opaque) or isinstance(b, Opaque):
             if isinstance(op, ast.Mod) and isinstance(a, str):
                 return Opaque('str')
@@ -989,6 +1072,41 @@ class AbsInt:
             left = r
         return True
 
+    def struct_eq(self, a, b, node):
+        """Equality of two abstract containers: True / False / None (undecided).  The same abstract value is equal to itself."""
+        if a is b:
+            return True
+        if isinstance(a, ADict) and isinstance(b, ADict):
+            try:
+                if set(a.d) != set(b.d):
+                    return False
+            except TypeError:
+                return None
+            pairs = [(a.d[k], b.d[k]) for k in a.d]
+        elif isinstance(a, AList) and isinstance(b, AList):
+            if a.has_var() or b.has_var():
+                if len(a.items) == len(b.items) and all(x is y for x, y in zip(a.items, b.items)):
+                    return True
+                return None
+            if len(a.items) != len(b.items):
+                return False
+            pairs = list(zip(a.items, b.items))
+        else:
+            return None
+        res = True
+        for x, y in pairs:
+            if x is y:
+                continue
+            if (isinstance(x, ADict) and isinstance(y, ADict)) or (isinstance(x, AList) and isinstance(y, AList)):
+                r = self.struct_eq(x, y, node)
+            else:
+                r = self.compare(ast.Eq(), x, y, node)
+            if r is False:
+                return False
+            if r is None:
+                res = None
+        return res
+
     def compare(self, op, a, b, node):
         if type(a).__name__ == 'SStr' or type(b).__name__ == 'SStr':
             if isinstance(op, (ast.Eq, ast.NotEq)):
@@ -1060,6 +1178,12 @@ class AbsInt:
             if res is None:
                 return None
             return res if isinstance(op, ast.In) else not res
+        if isinstance(op, (ast.Eq, ast.NotEq)) and ((isinstance(a, ADict) and isinstance(b, ADict)) or
+                                                     (isinstance(a, AList) and isinstance(b, AList) and a.kind == b.kind)):
+            eq = self.struct_eq(a, b, node)
+            if eq is None:
+                return None
+            return eq if isinstance(op, ast.Eq) else not eq
         x, y = _as_av(a), _as_av(b)
         if x is not None and y is not None and not x.is_top and not y.is_top:
             d = x.sub(y) if y.is_const or x.terms == y.terms else None
@@ -1322,6 +1446,11 @@ class AbsInt:
         if isinstance(it, AList):
             if it.kind == 'deque':
                 log_event('deque', 'iter', it, node)
+            if it.kind == 'iterator':
+                # a one-shot iterable (generator, iter(), map()): the first consumer gets the items, later ones get nothing
+                if getattr(it, 'consumed', False):
+                    return []
+                it.consumed = True
             out = []
             for x in it.items:
                 if isinstance(x, SeqVar) and not keep_vars:
@@ -1558,8 +1687,15 @@ class AbsInt:
                         d[k] = v
             d.update(kwargs)
             return ADict(d)
-        if f is set and args and isinstance(args[0], (AList,)):
-            return Opaque('set of symbolic')
+        if f in (set, frozenset) and args and isinstance(args[0], (AList, list, tuple)) and not _is_concrete(args[0]):
+            items = self.iterate(args[0], node, keep_vars=True)
+            if any(isinstance(x, SeqVar) for x in items):
+                return Opaque('set of symbolic')
+            # an unordered collection: canonical order by text so that two sets with the same members are the same value
+            uniq = {}
+            for x in items:
+                uniq.setdefault(repr(x), x)
+            return AList([uniq[k] for k in sorted(uniq)], f.__name__)
         if f in (int,) and args and isinstance(args[0], AV):
             return args[0]
         if getattr(self, 'str_domain', False) and isinstance(f, Opaque) and f.why == 'global repr' and len(args) == 1:
@@ -1781,7 +1917,7 @@ class AbsInt:
             if name == 'items':
                 return [AList([k, v], 'tuple') for k, v in base.d.items()]
             if name == 'keys':
-                return list(base.d.keys())
+                return KeysView(base.d.keys())
             if name == 'values':
                 return AList(list(base.d.values()))
             if name == 'pop':
@@ -1796,6 +1932,8 @@ class AbsInt:
                 return base.get(args[0], args[1] if len(args) > 1 else None)
             if name in ('items', 'keys', 'values', 'copy') and not args:
                 r = getattr(base, name)()
+                if name == 'keys':
+                    return KeysView(r)
                 return list(r) if name != 'copy' else ADict(r)
             if name == 'get' and args and isinstance(args[0], AV) and not args[0].is_top:
                 lo, hi = args[0].interval()
@@ -1940,6 +2078,10 @@ def _is_generator(fn):
             todo.extend(ast.iter_child_nodes(n))
         _gen_cache[k] = found
     return _gen_cache[k]
+
+
+def _is_staticmethod(fn):
+    return any(isinstance(d, ast.Name) and d.id == 'staticmethod' for d in fn.decorator_list)
 
 
 def _is_classmethod(fn):
